@@ -853,10 +853,20 @@ pub fn open_real(mode: u8) -> &'static SanitizerConfig {
     &OPEN.get_or_init(|| (0..=2).map(|m| open_cfg(m).build()).collect())[mode as usize]
 }
 
+/// What the parser made of the probed attribute and what the sanitizer left of it.
+pub struct AttrProbe {
+    /// `qkey` of the attribute as parsed: `"0"` for an HTML attribute (no prefix, no namespace)
+    pub parsed_q: String,
+    /// local name as parsed
+    pub parsed: String,
+    /// local name of the element's first attribute after sanitising (`None`: no attribute left)
+    pub after: Option<String>,
+}
+
 /// Parse `<el attr="v">` (inside whatever wrapper the parser needs for `el`) and report the name
-/// of the element after sanitising under `cfg`, and the local name of its attribute as parsed and
-/// after sanitising. `None`: the parser does not create an element of that name in any wrapper tried.
-pub fn probe_replacement(cfg: &SanitizerConfig, el: &str, attr: &str) -> Option<(String, Option<(String, String)>)> {
+/// of the element after sanitising under `cfg`, and its attribute as parsed and after sanitising.
+/// `None`: the parser does not create an element of that name in any wrapper tried.
+pub fn probe_replacement(cfg: &SanitizerConfig, el: &str, attr: &str) -> Option<(String, Option<AttrProbe>)> {
     const WRAPS: &[&str] = &["", "<table>", "<table><tbody><tr>", "<table><tbody>", "<select>", "<svg>", "<math>", "<ruby>", "<details>"];
     for w in WRAPS {
         let src = format!("{w}<{el} {attr}=\"v\">t</{el}>");
@@ -864,7 +874,7 @@ pub fn probe_replacement(cfg: &SanitizerConfig, el: &str, attr: &str) -> Option<
         let before = dump(&html);
         let Some(p) = path_to(&before, el) else { continue };
         let parsed_attr = match at(&before, &p) {
-            Some(N::E { attrs, .. }) => attrs.first().map(|a| a.1.clone()),
+            Some(N::E { attrs, .. }) => attrs.first().map(|a| (a.0.clone(), a.1.clone())),
             _ => None,
         };
         html.sanitize_with(cfg);
@@ -872,7 +882,7 @@ pub fn probe_replacement(cfg: &SanitizerConfig, el: &str, attr: &str) -> Option<
         return match at(&after, &p) {
             Some(N::E { name, attrs, .. }) => Some((
                 name.clone(),
-                parsed_attr.and_then(|b| attrs.first().map(|a| (b, a.1.clone()))),
+                parsed_attr.map(|(q, b)| AttrProbe { parsed_q: q, parsed: b, after: attrs.first().map(|a| a.1.clone()) }),
             )),
             _ => Some((String::new(), None)),
         };
